@@ -316,17 +316,17 @@ def _hv_truth(prog):
 
 
 def node_flag(prog: Program) -> RuleResult:
-    """A node met again for a binding it has answered already (its id is bound in the incoming bindings) repeats its answer from a flag kept
-    on the node (`yield OperationResult(sources, self._is_false_, self)`).  The flag is written while the results are computed - so it is
-    the answer for the binding that is being handed on *only if each result is handed on before the next one is computed*.  An evaluation
-    that computes all its results first (a list, sorted(...), a comprehension drained before the yield) leaves the flag at the answer for the
-    last binding: `big = x.a > 10; or_(and_(big, ...), and_(not_(big), ...))` then takes the second branch by the flag of another x."""
+    """A node met again for bindings it has answered already (its id is bound in the incoming bindings) repeats its answer.  The answer for
+    *these* bindings is the value recorded in them under the node's id.  A flag kept on the node is the answer for whatever binding the
+    node computed last: another evaluation of the same query consumed in between overwrites it (C03), and so does an evaluation that computes
+    all its results before handing the first one on.  So the repeated answer is read from the bindings; where it is read from a node flag,
+    the flag must at least be current - each result handed on before the next one is computed."""
     from ..model import walk_local
     from ..astutil import site, is_self_attr
     from ..callgraph import self_closure
     from .c10 import _stream_scan, _eager_params
 
-    r = RuleResult("NODE-FLAG", "a node that repeats its answer from a flag hands each result on before it computes the next", floor=1)
+    r = RuleResult("NODE-FLAG", "a node that is met again for bound values repeats the answer recorded in the bindings", floor=1)
     se = prog.cls("symbolic.SymbolicExpression")
     ep = _eager_params(prog)
     seen = set()
@@ -336,30 +336,43 @@ def node_flag(prog: Program) -> RuleResult:
         if f is None or f.qual in seen:
             continue
         seen.add(f.qual)
-        # the bound branch: a yield of a result whose flag argument is read from self, under a test that the node's id is bound
-        repeats = None
-        for t in [x for x in walk_local(f.node) if isinstance(x, ast.If)]:
-            if not (isinstance(t.test, ast.Compare) and isinstance(t.test.ops[0], ast.In) and "_id_" in src(t.test.left)):
+        if not (f.cls is not None and "apply_operation" in {g.name for g in self_closure(prog, c.qual, f, True)[0]}):
+            continue  # variables answer with the bound value itself (EP-BOUND); this rule is about nodes that compute a verdict
+        srcp = f.params[1] if len(f.params) > 1 else "sources"
+        bound = [t for t in walk_local(f.node) if isinstance(t, ast.If) and isinstance(t.test, ast.Compare) and isinstance(t.test.ops[0], ast.In) and "_id_" in src(t.test.left)]
+        for t in bound:
+            ys = [y for st in t.body for y in ast.walk(st) if isinstance(y, ast.Yield) and isinstance(y.value, ast.Call) and len(y.value.args) >= 2]
+            if not ys:
                 continue
-            for y in [y for st in t.body for y in ast.walk(st) if isinstance(y, (ast.Yield, ast.YieldFrom))]:
-                reads = [a.attr for a in ast.walk(y) if is_self_attr(a) and a.attr.startswith("_is_")]
-                if reads:
-                    repeats = (t, reads[0])
-        if repeats is None:
-            continue
-        flag = repeats[1]
-        fs, _ = self_closure(prog, c.qual, f, True)
-        writers = [g for g in fs if any(isinstance(x, ast.Assign) and any(is_self_attr(t) and t.attr == flag for t in x.targets) for x in walk_local(g.node))]
-        if not writers:
-            continue
-        n += 1
-        hits = _stream_scan(prog, f, ep)
-        r.check(not hits, f"{f.short}#results-handed-on-one-by-one", site(f, hits[0][0]) if hits else site(f, repeats[0]), src(hits[0][0])[:100] if hits else f"flag {flag} written in {[g.short for g in writers]}",
-                "the results are produced by a generator: the flag is the answer for the binding being handed on",
-                f"{hits[0][1] if hits else ''}: all results are computed before the first is handed on, so `self.{flag}` holds the answer for the last binding when the node is met "
-                f"again for an earlier one (the same comparison used in two branches of an else-if)")
+            n += 1
+            y = ys[0]
+            flag_arg = y.value.args[1]
+
+            def from_bindings(e) -> bool:
+                return any(isinstance(x, ast.Subscript) and isinstance(x.value, ast.Name) and x.value.id == srcp and "_id_" in src(x.slice) for x in ast.walk(e))
+
+            ok = from_bindings(flag_arg)
+            flag = None
+            if not ok and is_self_attr(flag_arg):
+                flag = flag_arg.attr
+                # self.<flag> = ... <sources>[self._id_] ... earlier in the same branch
+                for st in t.body:
+                    if st.lineno >= y.lineno:
+                        break
+                    if isinstance(st, ast.Assign) and any(is_self_attr(tg) and tg.attr == flag for tg in st.targets) and from_bindings(st.value):
+                        ok = True
+            if ok:
+                r.ok(f"{f.short}#repeats-from-the-bindings", site(f, t), src(flag_arg)[:60], f"the repeated answer is read from {srcp}[self._id_]")
+                continue
+            hits = _stream_scan(prog, f, ep) if flag else []
+            fs, _ = self_closure(prog, c.qual, f, True)
+            writers = [g.short for g in fs if flag and any(isinstance(x, ast.Assign) and any(is_self_attr(tg) and tg.attr == flag for tg in x.targets) for x in walk_local(g.node))]
+            r.fail(f"{f.short}#repeats-from-the-bindings", site(f, y), src(y.value)[:90],
+                   f"the repeated answer is `{src(flag_arg)}`, not the value recorded under the node's id in `{srcp}`: the flag (written by {writers or '?'}) is the answer for the binding compared "
+                   f"last - a second evaluation of the query consumed in between overwrites it and the suspended evaluation loses or gains a row"
+                   + (f"; and {hits[0][1]}: within one evaluation it holds the answer for the last binding of the domain" if hits else ""))
     if n < 1:
-        raise AnalysisError("NODE-FLAG: no evaluation repeats its answer from a node flag (Comparator expected)")
+        raise AnalysisError("NODE-FLAG: no computing node repeats its answer for bound values (Comparator expected)")
     return r
 
 
